@@ -262,9 +262,11 @@ def record_wide(ctx, nproc):
             jobs.append((kind, w, share, length, ctx.seed, tid))
             tid += share
     bulk = []
-    for usize in ctx.pick((100,), (100, 1000)):
+    # (the monitor's work per call grows with the square of the universe: 1000 names take TLC half an hour;
+    #  the writer puts every ref of a batch into ONE block whatever their number, so 300 walk the same code)
+    for usize in ctx.pick((100,), (100, 300)):
         for size in T.BULK_SIZES:
-            if size <= usize and (usize == 100 or size == 1000):
+            if size <= usize and (usize == 100 or size == 300):
                 for kind in ("reftable", "dict"):
                     tid += 1
                     bulk.append((kind, size, usize, ctx.seed, tid))
@@ -272,7 +274,7 @@ def record_wide(ctx, nproc):
         wide = [x for ch in pool.map(_wide_worker, jobs, chunksize=1) for x in ch]
         bulks = pool.map(_bulk_worker, bulk, chunksize=1)
     out = [("wide universe", wide)]
-    for usize in ctx.pick((100,), (100, 1000)):
+    for usize in ctx.pick((100,), (100, 300)):
         out.append((f"bulk universe of {usize} names", [x for job, ch in zip(bulk, bulks) if job[2] == usize for x in ch]))
     for label, trs in out:
         for obj, rv in trs:
